@@ -19,6 +19,7 @@ import shutil
 
 import numpy as np
 
+from vmon import own
 from vmon import lib_c10 as L
 from vmon import world
 
@@ -51,7 +52,7 @@ REQUIRED = dict(
               'contract:chem.mu-independent-masses', 'contract:chem.active-inactive-split',
               'contract:chem.split-profiles-aligned', 'contract:chem.rejects-traces-above-one', 'contract:chem.shape',
               'contract:gas.one-per-layer', 'contract:gas.finite', 'contract:gas.within-controls',
-              'rejects-above-one', 'accepts-valid', 'contract-fired', 'routes:split-by-availability',
+              'rejects-above-one', 'accepts-valid', 'contract-fired', 'earlier-result-stays-as-returned', 'routes:split-by-availability',
               'routes:one-row-per-gas-one-value-per-layer', 'routes:nonnegative-finite', 'routes:sums-to-one',
               'routes:profile-as-declared', 'routes:get_gas_mix_profile-is-the-row', 'routes:mu-weighted-sum'],
     classes=['gas-added-after-initialisation', 'grid:integer-decades', 'after-rejection:abundances-written-down', 'after-rejection:valid-sample-accepted', 'gas:ConstantGas', 'gas:TwoLayerGas', 'gas:TwoPointGas', 'gas:ArrayGas', 'gas:PowerGas',
@@ -198,6 +199,9 @@ def make_availability(ctx, rng, names):
     return set(mem) | set(fil), d
 
 
+_own = {}
+
+
 def init_chem(ctx, chem, n, T, P, alt=None):
     """Run initialize_chemistry under the contracts.  Returns 'accepted' or 'rejected'."""
     from taurex.data.profiles.chemistry.taurexchemistry import InvalidChemistryException
@@ -207,6 +211,16 @@ def init_chem(ctx, chem, n, T, P, alt=None):
     except InvalidChemistryException as e:
         ctx.license(type(e).__name__)
         return 'rejected'
+    led = _own.get('led')
+    if led is not None:
+        # what the caller kept from EARLIER initialisations of this object (mean molecular weight, mixing profiles) is
+        # still what it was; then the present results are kept as well
+        led.settle('a later initialize_chemistry on the same object')
+        led.keep(chem.muProfile, 'muProfile')
+        for nm_ in ('activeGasMixProfile', 'inactiveGasMixProfile'):
+            v_ = getattr(chem, nm_)
+            if isinstance(v_, np.ndarray):
+                led.keep(v_, nm_)
     st, why = L._h['chem_state'](chem, n)
     ctx.check('contract-fired', ctx.monitors['contract:chem.rejects-traces-above-one'] > before or st is None
               or bool(np.any((st['total'] != 1.0) & (np.abs(st['total'] - 1.0) <= 4 * L.EPS * max(len(st['traces']), 1)))),
@@ -276,6 +290,7 @@ def wl_mixture(ctx, rng):
     chem = TaurexChemistry(**kw)
     for g in gases:
         chem.addGas(g)
+    _own['led'] = own.Ledger(ctx, 'mixture')
     ctx.observe('fill:%d' % nf, 'nlayers:%d' % n, 'traces:%d' % k)
     if any(m in avail for m in fills):
         ctx.observe('fill-gas-active')
@@ -343,6 +358,8 @@ def wl_mixture(ctx, rng):
                 ctx.observe('gas-added-after-initialisation')
                 o5 = init_chem(ctx, chem, n, T, P)
                 judge(ctx, o5, gases, n, after='gas-added')
+    _own['led'].settle('all initialisations')
+    _own['led'] = None
     if d is not None:
         shutil.rmtree(d, ignore_errors=True)
     ctx.sig('mix', tuple(fills), tuple(ratios), tuple((g.molecule, type(g).__name__) for g in gases), n, tuple(sorted(avail)))
